@@ -48,11 +48,24 @@ PROPS = {
     "C10": dict(level="fault_enumeration", race=True, quick_count=300, quick_budget=40, thorough_budget=600),
     "C12": dict(level="exploration", race=False, quick_count=8000, quick_budget=40, thorough_budget=600),
     "C13": dict(level="fault_enumeration", race=True, quick_count=200, quick_budget=40, thorough_budget=600),
-    "C18": dict(level="exploration", race=False, quick_count=5000, quick_budget=40, thorough_budget=600),
+    "C18": dict(level="exploration", race=True, quick_count=5000, quick_budget=40, thorough_budget=600),
 }
 
 # oracles of the labelled side-cars (free-running goroutines: runtime monitoring, not schedule-replayable)
-NOT_OWNED = {"reuse-error-value", "error-value-free-running", "isolation-free-running", "race-detector"}
+NOT_OWNED = {"reuse-error-value", "error-value-free-running", "isolation-free-running", "race-detector", "console-stream-concurrent"}
+
+# reach probes that a full quick run always hits on a healthy set-up (see PROBE-ZERO)
+REQUIRED_PROBES = {
+    "C05": ["encoding-checked", "acceptance-step-checked", "request-raised-mid-instruction"],
+    "C06": ["accept/", "refused", "retired"],
+    "C07": ["accepted/"],
+    "C08": ["stopped-at-breakpoint", "stopped-at-HALT", "interrupt-accepted-during-run", "breakpoint-wins-over-HALT"],
+    "C09": ["interrupt@between-repetitions", "crash-restore@element-boundary", "on-library-DumbMemory"],
+    "C10": ["crash-restore", "context-switch-at-bus-access", "type-twin/", "device-swap-mode-1", "free-running-world-under-race-detector"],
+    "C12": ["unsupported-opcode-consumed", "malformed-request@", "run-returned-halted", "callback-copies-cpu"],
+    "C13": ["cancelled/", "watcher-held-in-Err-call-3", "run-calls-goroutine-accounted", "resumed-after-cancel", "runs-on-a-reused-cpu"],
+    "C18": ["breakpoint-after-call", "console-write-fault", "interrupt-inside-machine", "warning-path", "cancel-mid-run"],
+}
 
 RULES = {}   # filled from rules.json (text per property: how cases are generated, what is non-trivial)
 COMPONENTS = {
@@ -129,6 +142,8 @@ def run_workers(binary, prop, tier, seed, nshards, count, budget, extra_env=None
         e = dict(ENV)
         e.update(VERIF_PROP=prop, VERIF_TIER=tier, VERIF_SEED=str(seed), VERIF_SHARD=str(sh), VERIF_NSHARDS=str(max(nshards, 16)),
                  VERIF_COUNT=str(count), VERIF_BUDGET_S=str(budget), VERIF_OUT=out, VERIF_REPLAY_DIR=REPLAYS)
+        if prop == "C12":
+            e["VERIF_JOURNAL"] = out + ".journal"
         if extra_env:
             e.update(extra_env)
         p = subprocess.Popen([binary, "-test.run", "^TestWorker$", "-test.timeout", "0", "-test.count", "1"], env=e, cwd=tmpdir,
@@ -153,6 +168,15 @@ def run_workers(binary, prop, tier, seed, nshards, count, budget, extra_env=None
                        "worker": {"tier": tier, "seed": seed, "shard": sh, "nshards": nshards, "count": count, "budget": budget},
                        "observed": so[i:i + 6000]}, open(path, "w"), indent=1)
             races.append({"oracle": "race-detector", "detail": so[i:i + 1500], "replay": path, "race": True, "sidecar": True})
+            continue
+        jpath = out + ".journal"
+        if p.returncode != 0 and "fatal error:" in so and os.path.exists(jpath) and re.search(r"github\.com/koron-go/z80\.\(?\*?[A-Za-z]", so):
+            # the process died of an unrecoverable runtime error inside library code (C12: "no input makes the
+            # emulator panic or hang"): the journalled scenario is the replay file
+            path = os.path.join(REPLAYS, "%s-crash-%d-%d.json" % (prop, seed, sh))
+            shutil.copyfile(jpath, path)
+            i = so.index("fatal error:")
+            races.append({"oracle": "fatal-crash", "detail": so[i:i + 600].replace("\n", " | "), "replay": path, "race": "-race" in binary, "crash": True})
             continue
         if p.returncode != 0 or not os.path.exists(out):
             trouble.append("worker %d: exit %s\n%s" % (sh, p.returncode, so[-4000:]))
@@ -205,7 +229,8 @@ def merge(results):
             m["known_n"][k] = m["known_n"].get(k, 0) + v
         for v in r.get("violations") or []:
             v = dict(v)
-            v["race"] = r.get("race", False)
+            if "race" not in v:
+                v["race"] = r.get("race", False)
             m["violations"].append(v)
         m["samples"] += r.get("samples") or []
         m["nontrivial"].update(r.get("nontrivial_fingerprints") or [])
@@ -331,6 +356,12 @@ def _check(prop, tier, cfg, seed, t0, ev_path, tmpdir):
                 unconfirmed.append((v, "race detector did not report again on further runs of the same stress configuration and the report names no library code"))
             continue
         rr, so = replay_once(b, prop, v["replay"], tmpdir)
+        if v.get("crash"):
+            if rr is None and "fatal error:" in (so or ""):
+                confirmed.append(v)
+            else:
+                unconfirmed.append((v, "the journalled scenario did not crash a fresh process"))
+            continue
         tries = 1
         while not (rr is not None and rr.get("reproduced")) and v["oracle"] in NOT_OWNED and tries < 6:
             # scenarios whose goroutine schedule the simulator does not own (labelled side-cars):
@@ -392,6 +423,11 @@ def _check(prop, tier, cfg, seed, t0, ev_path, tmpdir):
     print("property=%s tier=%s seed=%d evaluations=%d distinct_nontrivial=%d steps=%d ticks=%d fired=%d classes=%d wall=%.1fs" % (
         prop, tier, seed, m["evaluations"], nontrivial, m["steps"], m["ticks"], fired_total, len(m["classes"]), wall), flush=True)
     rc = 0
+    for probe in REQUIRED_PROBES.get(prop, []):
+        if not any(k.startswith(probe) and v > 0 for k, v in m["fired"].items()) and tier == "quick" and not os.environ.get("VERIF_COUNT"):
+            # reach probe stuck at zero: part of this check has gone vacuous on this tree (e.g. the library's
+            # warning text changed); said loudly, but it is not a verdict about the property
+            print("PROBE-ZERO property=%s probe=%s: this run never reached the situation the probe counts; the oracles behind it decided nothing" % (prop, probe))
     for sig, example in sorted(m["known"].items()):
         if (prop, sig) in known:
             print("KNOWN-FINDING: property=%s %s [%s] seen %d times, e.g. %s" % (prop, known[(prop, sig)], sig, m["known_n"].get(sig, 0), example))
@@ -452,6 +488,11 @@ def replay(path):
             tries += 1
     finally:
         shutil.rmtree(tmpdir, ignore_errors=True)
+    if rr is None and rep.get("oracle") == "fatal-crash" and "fatal error:" in (so or ""):
+        print("the scenario crashed the fresh process again:")
+        print(so[so.index("fatal error:"):][:800])
+        print("VIOLATION property=%s replay=%s" % (prop, path))
+        return 1
     if rr is None:
         print(so)
         die("replay could not run")
